@@ -32,9 +32,51 @@ var poolGetters = map[protoreflect.FullName]func() pooledMsg{
 }
 
 type codecCase struct {
-	Part string `json:"part"` // "codec"
-	Type string `json:"type"`
-	Seed int64  `json:"case_seed"`
+	Part  string `json:"part"` // "codec"
+	Type  string `json:"type"`
+	Seed  int64  `json:"case_seed"`
+	Probe int    `json:"probe,omitempty"` // >0: hand-written pair number Probe-1 instead of a generated one
+}
+
+// probe pairs: small hand-written (A held first, B decoded into the recycled receiver) shapes, run
+// before the generated cases so that a failure of one of them is reported with a minimal witness.
+type probePair struct {
+	name string
+	a, b proto.Message
+}
+
+func u64(v uint64) *uint64 { return &v }
+
+func probePairs() []probePair {
+	del := func(key string, end []byte) *pb.Command {
+		return &pb.Command{Table: []byte("t"), Type: pb.Command_DELETE, Kv: &pb.KeyValue{Key: []byte(key)}, RangeEnd: end}
+	}
+	put := &pb.Command{Table: []byte("t"), Type: pb.Command_PUT, Kv: &pb.KeyValue{Key: []byte("k"), Value: []byte("v")}}
+	txn := &pb.Txn{Compare: []*pb.Compare{{Key: []byte("k"), Result: pb.Compare_EQUAL, Target: pb.Compare_VALUE, TargetUnion: &pb.Compare_Value{Value: []byte("v")}}},
+		Success: []*pb.RequestOp{{Request: &pb.RequestOp_RequestPut{RequestPut: &pb.RequestOp_Put{Key: []byte("k"), Value: []byte("w")}}}}}
+	return []probePair{
+		{"range delete [a,b), then single-key delete a (no range_end)", del("a", []byte("b")), del("a", nil)},
+		{"range delete with empty range_end, then range delete [a,b)", del("a", []byte{}), del("a", []byte("b"))},
+		{"single-key delete, then range delete with present-but-empty range_end", del("a", nil), del("a", []byte{})},
+		{"command with leader_index, then without", &pb.Command{Table: []byte("t"), Type: pb.Command_DUMMY, LeaderIndex: u64(5)}, &pb.Command{Table: []byte("t"), Type: pb.Command_DUMMY}},
+		{"command with leader_index 5, then leader_index 0 (present)", &pb.Command{Type: pb.Command_DUMMY, LeaderIndex: u64(5)}, &pb.Command{Type: pb.Command_DUMMY, LeaderIndex: u64(0)}},
+		{"txn command, then put", &pb.Command{Table: []byte("t"), Type: pb.Command_TXN, Txn: txn}, put},
+		{"txn command, then command with empty txn", &pb.Command{Table: []byte("t"), Type: pb.Command_TXN, Txn: txn}, &pb.Command{Type: pb.Command_TXN, Txn: &pb.Txn{}}},
+		{"put, then command without kv", put, &pb.Command{Table: []byte("longer-table-name"), Type: pb.Command_DUMMY}},
+		{"batch of 3 full pairs, then batch of 1 key-only pair", &pb.Command{Type: pb.Command_PUT_BATCH, Batch: []*pb.KeyValue{{Key: []byte("a"), Value: []byte("1"), ModRevision: 3}, {Key: []byte("b"), Value: []byte("2")}, {Key: []byte("c"), Value: []byte("3")}}},
+			&pb.Command{Type: pb.Command_DELETE_BATCH, Batch: []*pb.KeyValue{{Key: []byte("z")}}}},
+		{"sequence [range delete, txn], then sequence [single-key delete]", &pb.Command{Type: pb.Command_SEQUENCE, Sequence: []*pb.Command{del("a", []byte("b")), {Type: pb.Command_TXN, Txn: txn, LeaderIndex: u64(9)}}},
+			&pb.Command{Type: pb.Command_SEQUENCE, Sequence: []*pb.Command{del("a", nil)}}},
+		{"full command, then the all-default command (empty encoding)", &pb.Command{Table: []byte("t"), Type: pb.Command_DELETE, Kv: &pb.KeyValue{Key: []byte("a")}, RangeEnd: []byte("b"), LeaderIndex: u64(1), PrevKvs: true, Count: true, Txn: txn}, &pb.Command{}},
+		{"chunk of 1000 bytes, then the empty chunk", &pb.SnapshotChunk{Data: bytes1000(), Len: 1000, Index: 7}, &pb.SnapshotChunk{}},
+		{"chunk of 1000 bytes, then chunk of 3 bytes", &pb.SnapshotChunk{Data: bytes1000(), Len: 1000, Index: 7}, &pb.SnapshotChunk{Data: []byte("abc"), Len: 3}},
+	}
+}
+
+func bytes1000() []byte {
+	b := make([]byte, 1000)
+	fillByte(b, 'x')
+	return b
 }
 
 type codecWitness struct {
@@ -89,12 +131,6 @@ func (e *codecEnv) marshal(m proto.Message) ([]byte, error) {
 	return append(make([]byte, 0, len(b)+1), b...), nil
 }
 
-func scribble(b []byte) {
-	for i := range b {
-		b[i] = 0xA5
-	}
-}
-
 // runCodecCase executes one case: message B of the given type (plus, for pool-enabled types, a
 // different larger message A of the same type that the receiver holds first).
 func (e *codecEnv) runCodecCase(c codecCase) {
@@ -106,15 +142,38 @@ func (e *codecEnv) runCodecCase(c codecCase) {
 	}
 	rnd := caseRand(c.Seed)
 	gb := newMG(rnd, false, e.bigMax)
-	B := gb.gen(mt)
+	var B proto.Message
+	var probe *probePair
+	if c.Probe > 0 {
+		pp := probePairs()
+		if c.Probe > len(pp) {
+			r.Inconclusive("replay names unknown probe")
+			return
+		}
+		probe = &pp[c.Probe-1]
+		B = probe.b
+	} else {
+		B = gb.gen(mt)
+	}
 	e.mu.Lock()
 	for f := range gb.feat {
 		e.feats[f] = struct{}{}
 	}
 	e.mu.Unlock()
 
+	var A proto.Message // the larger message a recycled receiver holds first (pool-enabled types)
+	const prevIsA = "\x00A"
 	fail := func(sig, step, recv string, orig, got proto.Message, diffs []fdiff, prev, note string) {
+		if seenBefore(r, sig) {
+			return
+		}
+		if prev == prevIsA {
+			prev = "message A of this case: " + shortSummary(A)
+		}
 		w := codecWitness{Case: c, Step: step, Receiver: recv, Original: summarize(orig), Diffs: diffs, Previous: prev, Note: note}
+		if probe != nil {
+			w.Note = strings.TrimSpace("hand-written pair: " + probe.name + ". " + note)
+		}
 		if got != nil {
 			w.Decoded = summarize(got)
 		}
@@ -131,7 +190,11 @@ func (e *codecEnv) runCodecCase(c codecCase) {
 	}
 	// judge compares and reports; returns true when the decoded message equals the original.
 	judge := func(step, recv string, orig, got proto.Message, prev string) bool {
-		diffs, equal, disagree := compare(orig, got)
+		cmp := compare
+		if orig != B {
+			cmp = compareFast // the large first message of a recycling chain
+		}
+		diffs, equal, disagree := cmp(orig, got)
 		r.Count("codec_round_trips", 1)
 		if disagree {
 			r.Count("oracle_disagreements", 1)
@@ -146,6 +209,16 @@ func (e *codecEnv) runCodecCase(c codecCase) {
 			sig = "pooled-command-decode-keeps-empty-range_end"
 		}
 		fail(sig, step, recv, orig, got, diffs, prev, "")
+		if sig == "pooled-command-decode-keeps-empty-range_end" {
+			// reported; undo exactly this difference so that the rest of the case (other fields,
+			// stale aliasing) is still judged instead of being masked by it
+			dropEmptyRangeEnd(orig.(*pb.Command), got.(*pb.Command))
+			if d2, eq2, _ := compare(orig, got); !eq2 {
+				fail(fmt.Sprintf("codec-%s-mismatch:%s:%s", recv, shortType(c.Type), firstField(d2)), step, recv, orig, got, d2, prev, "")
+				return false
+			}
+			return true
+		}
 		return false
 	}
 
@@ -180,7 +253,7 @@ func (e *codecEnv) runCodecCase(c codecCase) {
 	if err := proto.Unmarshal(encB, std); err != nil {
 		fail("codec-crosscheck-reference-rejects-vt-encoding:"+shortType(c.Type), "vt-marshal→std-unmarshal", "fresh", B, nil, nil, "", err.Error())
 	} else {
-		diffs, equal, _ := compare(B, std)
+		diffs, equal, _ := compareFast(B, std)
 		r.Count("crosscheck_trips", 1)
 		if !equal {
 			fail("codec-crosscheck-vt-marshal-std-unmarshal:"+shortType(c.Type)+":"+firstField(diffs), "vt-marshal→std-unmarshal", "fresh", B, std, diffs, "", "")
@@ -193,7 +266,7 @@ func (e *codecEnv) runCodecCase(c codecCase) {
 		if err := e.codec.Unmarshal(append([]byte{}, encStd...), vt); err != nil {
 			fail("codec-crosscheck-vt-rejects-reference-encoding:"+shortType(c.Type), "std-marshal→vt-unmarshal", "fresh", B, nil, nil, "", err.Error())
 		} else {
-			diffs, equal, _ := compare(B, vt)
+			diffs, equal, _ := compareFast(B, vt)
 			r.Count("crosscheck_trips", 1)
 			if !equal {
 				fail("codec-crosscheck-std-marshal-vt-unmarshal:"+shortType(c.Type)+":"+firstField(diffs), "std-marshal→vt-unmarshal", "fresh", B, vt, diffs, "", "")
@@ -207,8 +280,12 @@ func (e *codecEnv) runCodecCase(c codecCase) {
 	if get == nil {
 		return
 	}
-	ga := newMG(rnd, true, e.bigMax)
-	A := ga.gen(mt) // a different, larger message
+	if probe != nil {
+		A = probe.a
+		r.Count("recycling_probe_pairs", 1)
+	} else {
+		A = newMG(rnd, true, e.bigMax).gen(mt) // a different, larger message
+	}
 	encA, err := e.marshal(A)
 	if err != nil {
 		fail("codec-marshal-error:"+shortType(c.Type), "marshal", "-", A, nil, nil, "", err.Error())
@@ -239,13 +316,13 @@ func (e *codecEnv) runCodecCase(c codecCase) {
 		o.ResetVT()
 		bufB := append([]byte{}, encB...)
 		if err := e.codec.Unmarshal(bufB, o); err != nil {
-			fail("codec-unmarshal-error:"+shortType(c.Type), "decode B", "recycled(ResetVT loop)", B, nil, nil, shortSummary(A), err.Error())
-		} else if judge("ResetVT, then decode B into the object that held A", "recycled", B, o, shortSummary(A)) {
+			fail("codec-unmarshal-error:"+shortType(c.Type), "decode B", "recycled(ResetVT loop)", B, nil, nil, prevIsA, err.Error())
+		} else if judge("ResetVT, then decode B into the object that held A", "recycled", B, o, prevIsA) {
 			r.Count("recycled_decodes_equal", 1)
 			// the buffer of the PREVIOUS message is dead by now; a recycled receiver must not still point into it
 			scribble(bufA)
-			if diffs, equal, _ := compare(B, o); !equal {
-				fail("codec-recycled-receiver-aliases-previous-buffer:"+shortType(c.Type)+":"+firstField(diffs), "overwrite buffer of previous message A", "recycled", B, o, diffs, shortSummary(A), "")
+			if diffs, equal, _ := compareFast(B, o); !equal {
+				fail("codec-recycled-receiver-aliases-previous-buffer:"+shortType(c.Type)+":"+firstField(diffs), "overwrite buffer of previous message A", "recycled", B, o, diffs, prevIsA, "")
 			}
 			if nontrivial {
 				r.Nontrivial("codec-loop|" + string(encB))
@@ -278,7 +355,7 @@ func (e *codecEnv) runCodecCase(c codecCase) {
 			r.Count("recycled_decodes_equal", 1)
 			if same {
 				scribble(bufA)
-				if diffs, equal, _ := compare(B, o2); !equal {
+				if diffs, equal, _ := compareFast(B, o2); !equal {
 					fail("codec-recycled-receiver-aliases-previous-buffer:"+shortType(c.Type)+":"+firstField(diffs), "overwrite buffer of previous message A", "recycled", B, o2, diffs, prev2, "")
 				}
 				if nontrivial {
@@ -299,6 +376,19 @@ func (e *codecEnv) runCodecCase(c codecCase) {
 	if rnd.Intn(400) == 0 {
 		r.Sample(map[string]any{"part": "codec", "type": c.Type, "case_seed": c.Seed, "encoded_bytes": len(encB), "message": shortSummary(B),
 			"receiver_first_held": shortSummary(A), "oneof_arms_set": gb.oneofsSet, "optional_fields_set": gb.optSet})
+	}
+}
+
+// dropEmptyRangeEnd resets a present-but-empty range_end in the decoded tree wherever the
+// original has none.
+func dropEmptyRangeEnd(orig, got *pb.Command) {
+	if orig.RangeEnd == nil && got.RangeEnd != nil && len(got.RangeEnd) == 0 {
+		got.RangeEnd = nil
+	}
+	for i := range orig.Sequence {
+		if i < len(got.Sequence) && orig.Sequence[i] != nil && got.Sequence[i] != nil {
+			dropEmptyRangeEnd(orig.Sequence[i], got.Sequence[i])
+		}
 	}
 }
 
@@ -335,6 +425,18 @@ var (
 	seenSig   = map[string]int{}
 )
 
+// seenBefore counts a repetition of an already reported signature (and spares building a witness).
+func seenBefore(r *ev.Run, sig string) bool {
+	seenSigMu.Lock()
+	defer seenSigMu.Unlock()
+	if seenSig[sig] > 0 {
+		seenSig[sig]++
+		r.Count("repeated_violations_of_reported_signatures", 1)
+		return true
+	}
+	return false
+}
+
 func violationOnce(r *ev.Run, sig, what string, witness any) {
 	seenSigMu.Lock()
 	seenSig[sig]++
@@ -350,13 +452,16 @@ func violationOnce(r *ev.Run, sig, what string, witness any) {
 func (e *codecEnv) plan() []codecCase {
 	r := e.r
 	var cases []codecCase
+	for i, p := range probePairs() {
+		cases = append(cases, codecCase{Part: "codec", Type: string(p.b.ProtoReflect().Descriptor().FullName()), Seed: int64(i), Probe: i + 1})
+	}
 	per := r.Pick(90, 9000)
 	for _, mt := range e.types {
 		name := string(mt.Descriptor().FullName())
 		n := per
 		switch name {
 		case "mvcc.v1.Command":
-			n = r.Pick(2500, 250000)
+			n = r.Pick(2000, 250000)
 		case "replication.v1.SnapshotChunk":
 			n = r.Pick(600, 40000)
 		case "mvcc.v1.Txn", "mvcc.v1.RequestOp", "mvcc.v1.ResponseOp", "mvcc.v1.Compare", "mvcc.v1.CommandResult",
